@@ -100,6 +100,9 @@ func (m *Machine) step() {
 
 func (m *Machine) visitInstr(fr *frame, instr ssa.Instruction) continuation {
 	m.step()
+	if m.cfg.Profile != nil {
+		m.cfg.Profile[fr.fn.String()]++
+	}
 	switch instr := instr.(type) {
 	case *ssa.DebugRef:
 
@@ -330,9 +333,35 @@ func (m *Machine) allocSize(v value, what string) int {
 			over = m.ctx.Cmp(smt.OpUlt, lim, s.t)
 		}
 		if m.decide(mkScalar(over, types.Bool), "alloc-over-budget") {
+			// prefer a witness with a really large request: it reproduces
+			// natively as an out-of-memory failure rather than a few MiB
+			for _, sh := range []uint{30, 26, 22} {
+				if w <= int(sh) {
+					continue
+				}
+				big := m.ctx.Cmp(smt.OpUle, m.ctx.BV(uint64(1)<<sh, w), s.t)
+				if kindSigned(s.k) {
+					big = m.ctx.Cmp(smt.OpSle, m.ctx.BV(uint64(1)<<sh, w), s.t)
+				}
+				if m.check(big) == smt.Sat {
+					m.assume(big)
+					break
+				}
+			}
 			m.onAllocOverBudget(what)
 		}
-		return int(asInt64(m.concretize(v, "alloc-size")))
+		// small sizes are case-split exhaustively; sizes above the split bound
+		// are explored for one representative value (stated in evidence)
+		k := int64(m.cfg.AllocSplit)
+		small := m.ctx.Cmp(smt.OpUle, s.t, m.ctx.BV(uint64(k), w))
+		if m.decide(mkScalar(small, types.Bool), "alloc-small") {
+			return int(asInt64(m.concretize(v, "alloc-size")))
+		}
+		m.ensureModel("alloc-size")
+		val := smt.Eval(s.t, m.model)
+		m.assume(m.ctx.Eq(s.t, m.ctx.BV(val, w)))
+		m.note(fmt.Sprintf("allocation sizes above %d explored for one representative value (%s)", k, what))
+		return int(asInt64(fromBits(s.k, val)))
 	}
 	n := asInt64(v)
 	if k, _ := kindOf(v); !kindSigned(k) && bitsOf(v) > uint64(1<<62) {
